@@ -5,6 +5,7 @@ package c08
 // c08_test.go derives it from the world's ground truth.
 
 import (
+	"bytes"
 	"encoding/hex"
 	"encoding/json"
 	"math"
@@ -427,7 +428,11 @@ func allKinds() []kind {
 			c.obj.Balance = hexutil.EncodeBig(new(big.Int).Add(b, big.NewInt(1)))
 			return c
 		}},
-		{"acct/codehash-flip", func(g *gen) *caseSpec { c := g.trueBase(""); c.obj.CodeHash = flipHexBit(g.rng, c.obj.CodeHash); return c }},
+		{"acct/codehash-flip", func(g *gen) *caseSpec {
+			c := g.trueBase("")
+			c.obj.CodeHash = flipHexBit(g.rng, c.obj.CodeHash)
+			return c
+		}},
 		{"acct/codehash-empty", func(g *gen) *caseSpec { c := g.trueBase(""); c.obj.CodeHash = hexutil.Encode(emptyCode); return c }},
 		{"acct/storagehash-flip", func(g *gen) *caseSpec {
 			c := g.trueBase("")
@@ -561,8 +566,16 @@ func allKinds() []kind {
 			c.obj.StorageProof[0].Key = "0x" + k
 			return c
 		}},
-		{"key/upper", func(g *gen) *caseSpec { c := g.trueBase(""); c.obj.StorageProof[0].Key = upperHex(c.obj.StorageProof[0].Key); return c }},
-		{"key/no0x", func(g *gen) *caseSpec { c := g.trueBase(""); c.obj.StorageProof[0].Key = no0x(c.obj.StorageProof[0].Key); return c }},
+		{"key/upper", func(g *gen) *caseSpec {
+			c := g.trueBase("")
+			c.obj.StorageProof[0].Key = upperHex(c.obj.StorageProof[0].Key)
+			return c
+		}},
+		{"key/no0x", func(g *gen) *caseSpec {
+			c := g.trueBase("")
+			c.obj.StorageProof[0].Key = no0x(c.obj.StorageProof[0].Key)
+			return c
+		}},
 		{"key/empty", func(g *gen) *caseSpec { c := g.trueBase(""); c.obj.StorageProof[0].Key = ""; return c }},
 		{"key/hashed", func(g *gen) *caseSpec {
 			c := g.trueBase("")
@@ -717,7 +730,9 @@ func allKinds() []kind {
 		}},
 
 		// ------------------------------------------------------------ absent key
-		{"absent/nonmembership", func(g *gen) *caseSpec { return g.honestCase("", g.okState(), ref{p: g.w.absent, ack: g.rng.Intn(2) == 0}) }},
+		{"absent/nonmembership", func(g *gen) *caseSpec {
+			return g.honestCase("", g.okState(), ref{p: g.w.absent, ack: g.rng.Intn(2) == 0})
+		}},
 		{"absent/nonmembership-p0-value", func(g *gen) *caseSpec {
 			c := g.honestCase("", g.okState(), ref{p: g.w.absent})
 			c.claim.commitment = append([]byte{}, g.w.packets[0].commit...)
@@ -795,7 +810,11 @@ func allKinds() []kind {
 
 		// ------------------------------------------------------------ raw proof bytes
 		{"raw/nil", func(g *gen) *caseSpec { c := g.trueBase(""); c.raw, c.rawClass, c.obj = nil, rawBroken, nil; return c }},
-		{"raw/empty", func(g *gen) *caseSpec { c := g.trueBase(""); c.raw, c.rawClass, c.obj = []byte{}, rawBroken, nil; return c }},
+		{"raw/empty", func(g *gen) *caseSpec {
+			c := g.trueBase("")
+			c.raw, c.rawClass, c.obj = []byte{}, rawBroken, nil
+			return c
+		}},
 		{"raw/garbage", func(g *gen) *caseSpec {
 			c := g.trueBase("")
 			c.raw, c.rawClass, c.obj = randBytes(g.rng, 1+g.rng.Intn(300)), rawBroken, nil
@@ -807,10 +826,37 @@ func allKinds() []kind {
 			c.raw, c.rawClass, c.obj = bz[:1+g.rng.Intn(len(bz)-1)], rawBroken, nil
 			return c
 		}},
-		{"raw/null", func(g *gen) *caseSpec { c := g.trueBase(""); c.raw, c.rawClass, c.obj = []byte("null"), rawBroken, nil; return c }},
-		{"raw/empty-object", func(g *gen) *caseSpec { c := g.trueBase(""); c.raw, c.rawClass, c.obj = []byte("{}"), rawBroken, nil; return c }},
-		{"raw/array", func(g *gen) *caseSpec { c := g.trueBase(""); c.raw, c.rawClass, c.obj = []byte("[]"), rawBroken, nil; return c }},
-		{"raw/string", func(g *gen) *caseSpec { c := g.trueBase(""); c.raw, c.rawClass, c.obj = []byte(`"0x00"`), rawBroken, nil; return c }},
+		{"raw/valid-proof-followed-by-data", func(g *gen) *caseSpec {
+			// the proof field is ONE JSON value: an acceptable proof with anything but white space behind it is padded
+			c := g.trueBase("")
+			bz, _ := json.Marshal(c.obj)
+			tail := [][]byte{{0}, []byte("{"), []byte(" {}"), []byte("\n\"x\""), bz, randBytes(g.rng, 1+g.rng.Intn(40)), []byte("]")}[g.rng.Intn(7)]
+			if len(bytes.TrimSpace(tail)) == 0 {
+				tail = []byte("0")
+			}
+			c.raw, c.rawClass, c.obj = append(append([]byte{}, bz...), tail...), rawBroken, nil
+			return c
+		}},
+		{"raw/null", func(g *gen) *caseSpec {
+			c := g.trueBase("")
+			c.raw, c.rawClass, c.obj = []byte("null"), rawBroken, nil
+			return c
+		}},
+		{"raw/empty-object", func(g *gen) *caseSpec {
+			c := g.trueBase("")
+			c.raw, c.rawClass, c.obj = []byte("{}"), rawBroken, nil
+			return c
+		}},
+		{"raw/array", func(g *gen) *caseSpec {
+			c := g.trueBase("")
+			c.raw, c.rawClass, c.obj = []byte("[]"), rawBroken, nil
+			return c
+		}},
+		{"raw/string", func(g *gen) *caseSpec {
+			c := g.trueBase("")
+			c.raw, c.rawClass, c.obj = []byte(`"0x00"`), rawBroken, nil
+			return c
+		}},
 		{"raw/camel-case-keys", func(g *gen) *caseSpec {
 			c := g.trueBase("")
 			bz, _ := json.Marshal(c.obj)
